@@ -4,8 +4,27 @@ import fcntl, hashlib, json, os, re, subprocess, sys, time
 
 ROOT = os.path.dirname(os.path.dirname(os.path.abspath(__file__)))
 REPO = os.environ.get("VERIF_REPO", "/repo")
-BUILD = os.path.join(ROOT, "build")
+BUILD = os.environ.get("VERIF_BUILD", os.path.join(ROOT, "build"))
 ENGINE = os.path.join(ROOT, "engine")
+if REPO != "/repo":
+    # experiments against a scratch checkout: the harness workspace path-depends on /repo/eqlog-runtime,
+    # so work on a copy of it that points at the scratch checkout (never used by registered commands)
+    import shutil as _sh
+    _copy = os.path.join(BUILD, "engine-copy")
+    os.makedirs(BUILD, exist_ok=True)
+    for _d, _, _fs in os.walk(ENGINE):
+        for _f in _fs:
+            _src = os.path.join(_d, _f)
+            _dst = os.path.join(_copy, os.path.relpath(_src, ENGINE))
+            os.makedirs(os.path.dirname(_dst), exist_ok=True)
+            with open(_src, "rb") as _fh:
+                _data = _fh.read()
+            if _f == "Cargo.toml":
+                _data = _data.replace(b"/repo/eqlog-runtime", os.path.join(REPO, "eqlog-runtime").encode())
+            if not os.path.exists(_dst) or open(_dst, "rb").read() != _data:
+                with open(_dst, "wb") as _fh:
+                    _fh.write(_data)
+    ENGINE = _copy
 TARGET_COMPILER = os.path.join(BUILD, "target-compiler")
 TARGET_ENGINE = os.path.join(BUILD, "target-engine")
 EQLOG_BIN = os.path.join(TARGET_COMPILER, "debug", "eqlog")
@@ -126,7 +145,8 @@ def finding_matches(finding, prop, viol):
 def finish(prop, tier, level, coverage, violations, t0, assumptions=None, seed=0):
     """Writes replays + evidence, prints VIOLATION / KNOWN-FINDING lines, returns the exit code."""
     known = load_known()
-    rdir = os.path.join(ROOT, "replays", prop)
+    outroot = BUILD if "VERIF_BUILD" in os.environ else ROOT
+    rdir = os.path.join(outroot, "replays", prop)
     unlisted, hits = [], {}
     for v in violations:
         text = json.dumps(v, sort_keys=True)
@@ -163,11 +183,11 @@ def finish(prop, tier, level, coverage, violations, t0, assumptions=None, seed=0
         "coverage": coverage, "assumptions": assumptions or [],
         "wall_s": round(time.time() - t0, 2), "violations": len(unlisted),
     }
-    os.makedirs(os.path.join(ROOT, "evidence"), exist_ok=True)
-    tmp = os.path.join(ROOT, "evidence", f".{prop}.json.tmp")
+    os.makedirs(os.path.join(outroot, "evidence"), exist_ok=True)
+    tmp = os.path.join(outroot, "evidence", f".{prop}.json.tmp")
     with open(tmp, "w") as f:
         json.dump(ev, f, indent=1)
-    os.replace(tmp, os.path.join(ROOT, "evidence", f"{prop}.json"))
+    os.replace(tmp, os.path.join(outroot, "evidence", f"{prop}.json"))
     n_ok = "no unlisted violation" if not unlisted else f"{len(unlisted)} unlisted violation(s)"
     print(f"[{prop}] tier={tier} level={level} {summary_line(coverage)} -> {n_ok} in {ev['wall_s']}s")
     return 1 if unlisted else 0
